@@ -136,6 +136,11 @@ func fenceReplay(args []string) int {
 				mu.Unlock()
 			}
 			var r *fence.Runner
+			defer func() {
+				if r != nil {
+					r.Close()
+				}
+			}()
 			st := fence.NewStats()
 			for j := range jobs {
 				mu.Lock()
@@ -150,7 +155,6 @@ func fenceReplay(args []string) int {
 						setErr(err)
 						continue
 					}
-					defer r.Close()
 				}
 				var b fence.Behaviour
 				if err := json.Unmarshal(j.line, &b); err != nil {
@@ -158,6 +162,23 @@ func fenceReplay(args []string) int {
 					continue
 				}
 				ms, err := r.Run(j.i, &b, st)
+				if err != nil && strings.Contains(err.Error(), "sentinel") && strings.Contains(err.Error(), "not received") {
+					// the sentinel is an object SET into the fence's area and taken out again: its notifications are
+					// owed like any other.  After three minutes without them the fence has gone silent (the fences of a
+					// runner live through all its behaviours): a disagreement, not a failure of the harness
+					tr := "hook"
+					if strings.HasPrefix(err.Error(), "live") {
+						tr = "live"
+					} else if strings.HasPrefix(err.Error(), "channel") || strings.HasPrefix(err.Error(), "chan") {
+						tr = "chan"
+					}
+					ms = append(ms, fence.Mismatch{Behaviour: j.i, Step: 0, Fence: 0, Transport: tr, Class: "silent",
+						Text: err.Error() + " within 3 minutes: a SET into the fence's area was acknowledged and never reported " +
+							"(the fences of this server had served the behaviours before this one)"})
+					err = nil
+					r.Close()
+					r = nil
+				}
 				if len(ms) > 0 {
 					atomic.AddInt64(&nmism, int64(len(ms)))
 					mu.Lock()
